@@ -497,9 +497,21 @@ func init() {
 				b, _ := json.Marshal(c)
 				n = append(n, string(b))
 			}
+			for _, c := range configs(tier) {
+				n = append(n, "rebind-differential:"+c.Kind)
+			}
 			return n
 		},
 		Run: func(tier string, i int, deadline time.Time) *hk.JobResult {
+			if cs := configs(tier); i >= len(cs) {
+				r := &hk.JobResult{Exhaustive: true, Bounds: map[string]any{"rebind_depth": 3}}
+				d := 3
+				if tier == "thorough" {
+					d = 5
+				}
+				rebindJob(cs[i-len(cs)].Kind, d, r)
+				return r
+			}
 			c := configs(tier)[i]
 			r := &hk.JobResult{Exhaustive: true, Bounds: map[string]any{"depth": c.Depth}}
 			allowedAfter := map[string][]int{}
@@ -526,6 +538,18 @@ func init() {
 			return r
 		},
 		Replay: func(raw json.RawMessage) string {
+			var rb struct {
+				Kind string `json:"rebind_kind"`
+				Ops  []int  `json:"ops"`
+			}
+			if json.Unmarshal(raw, &rb) == nil && rb.Kind != "" {
+				a, _ := rebindCase(rb.Kind, rb.Ops, true)
+				b, _ := rebindCase(rb.Kind, rb.Ops, false)
+				if a != b {
+					return "rebind not fresh: " + diffLines(a, b)
+				}
+				return ""
+			}
 			var rp replay
 			if err := json.Unmarshal(raw, &rp); err != nil {
 				return "bad replay"
